@@ -4,6 +4,7 @@ import (
 	"encoding/binary"
 	"errors"
 	"fmt"
+	"math"
 	"strings"
 )
 
@@ -158,6 +159,12 @@ func (aa ArchiveInfoList) validate() error {
 		}
 		if a.offset != off {
 			return fmt.Errorf("invalid archive%v: invalid offset got:%v, want:%v", i, a.offset, off)
+		}
+		if int64(a.secondsPerPoint)*int64(a.numberOfPoints) > math.MaxInt32 {
+			return fmt.Errorf("invalid archive%v: retention overflows 31 bits (%v x %v points)", i, a.secondsPerPoint, a.numberOfPoints)
+		}
+		if uint64(off)+uint64(a.numberOfPoints)*pointSize > math.MaxUint32 {
+			return fmt.Errorf("invalid archive%v: archive does not fit in 32-bit file offsets", i)
 		}
 
 		if i == len(aa)-1 {
